@@ -34,7 +34,7 @@ INV = 0b01111000011
 def cases(draw):
     nb = draw(st.sampled_from([1, 1, 1, 1, 2, 3]))
     pair = draw(gen.image_pair(min_rows=24, max_rows=64, min_cols=24, max_cols=64, max_val=30, masks=True, tile_max=8,
-                               conventions=False))
+                               conventions=True))
     sf = draw(st.sampled_from([2, 2, 3]))
     ns = draw(st.sampled_from([2, 2, 3]))
     if sf ** (ns - 1) * 8 > min(pair["H"], pair["W"]):
@@ -96,7 +96,7 @@ def body(ctx: Ctx, p: dict) -> None:
     pipe = gen.pipe_dict(p["pipeline"])
     names = list(pipe)
     has_val = any(n.split(".")[0] == "validation" for n in names)
-    l, r = drive.make_inputs(left, right, (a, b), ml, mr, None, bands)
+    l, r = drive.make_inputs(left, right, (a, b), ml, mr, None, bands, p["pair"]["valid"], p["pair"]["nodata"])
     lb, rb = build.snapshot(l), build.snapshot(r)
     from pandora.state_machine import PandoraMachine
 
@@ -108,7 +108,8 @@ def body(ctx: Ctx, p: dict) -> None:
         if kind == "matching_cost":
             rec = {"scale": m.current_scale, "shape": (int(m.left_img.sizes["row"]), int(m.left_img.sizes["col"])),
                    "min": np.array(m.disp_min, dtype=float).copy(), "max": np.array(m.disp_max, dtype=float).copy(),
-                   "axis": m.left_cv.coords["disp"].data.copy()}
+                   "axis": m.left_cv.coords["disp"].data.copy(),
+                   "finite": bool(np.isfinite(m.left_img["im"].data).all() and np.isfinite(m.right_img["im"].data).all())}
             if has_val and m.right_cv is not None:
                 rec["rmin"] = np.array(m.right_disp_min, dtype=float).copy()
                 rec["rmax"] = np.array(m.right_disp_max, dtype=float).copy()
@@ -116,13 +117,12 @@ def body(ctx: Ctx, p: dict) -> None:
         if kind == "multiscale":
             rec = {"d": m.left_disparity["disparity_map"].data.copy(), "m": m.left_disparity["validity_mask"].data.copy(),
                    "win": int(m.left_disparity.attrs["window_size"]),
-                   "umin": float(np.nanmin(np.asarray(m.dmin_user, dtype=float))) * sf,
-                   "umax": float(np.nanmax(np.asarray(m.dmax_user, dtype=float))) * sf}
+                   "umin": a / sf ** m.current_scale, "umax": b / sf ** m.current_scale}
             if has_val and "disparity_map" in m.right_disparity:
                 rec["rd"] = m.right_disparity["disparity_map"].data.copy()
                 rec["rm"] = m.right_disparity["validity_mask"].data.copy()
-                rec["rumin"] = float(np.nanmin(np.asarray(m.dmin_user_right, dtype=float))) * sf
-                rec["rumax"] = float(np.nanmax(np.asarray(m.dmax_user_right, dtype=float))) * sf
+                rec["rumin"] = -b / sf ** m.current_scale
+                rec["rumax"] = -a / sf ** m.current_scale
             mss.append(rec)
 
     spy = drive.Spy(before=before)
@@ -160,6 +160,9 @@ def body(ctx: Ctx, p: dict) -> None:
         ctx.violation("C15/output-size-wrong", f"{lo['disparity_map'].shape} {tag}")
     if has_val != ("disparity_map" in ro):
         ctx.violation("C15/right-products-presence", f"validation={has_val} {tag}")
+    if not all(m["finite"] for m in mcs):
+        ctx.violation("C15/level-image-not-finite", f"levels {[m['scale'] for m in mcs if not m['finite']]} hold NaN/inf "
+                                                    f"radiometry for finite inputs {tag}")
     # ---- coarsest interval
     f = sf ** (ns - 1)
     c0 = mcs[0]
@@ -234,6 +237,8 @@ def body(ctx: Ctx, p: dict) -> None:
         classes.append("multiband")
     if ml is not None or mr is not None:
         classes.append("mask")
+        if p["pair"]["valid"] != 0:
+            classes.append("mask-own-convention")
     if a % f or b % f:
         classes.append("non-divisible-interval")
     ctx.case(p, nontrivial=bool(len(mcs) >= 2 and varied), classes=classes)
